@@ -41,6 +41,57 @@ const WIDE_EXPRS: &[&str] = &[
     "CASE WHEN true THEN CAST(1 AS DECIMAL(6,2)) ELSE CAST(2 AS DECIMAL(6,2)) END",
 ];
 
+/// Typed atoms for the combinatorial palette: (column name in `wt`, SQL type, literal form).
+const ATOMS: &[(&str, &str, &str)] = &[
+    ("c_ti", "TINYINT", "CAST(3 AS TINYINT)"),
+    ("c_si", "SMALLINT", "CAST(3 AS SMALLINT)"),
+    ("c_i", "INT", "4"),
+    ("c_bi", "BIGINT", "CAST(5 AS BIGINT)"),
+    ("c_u8", "UINT8", "CAST(200 AS UINT8)"),
+    ("c_u16", "UINT16", "CAST(300 AS UINT16)"),
+    ("c_u32", "UINT32", "CAST(7 AS UINT32)"),
+    ("c_u64", "UINT64", "CAST(9 AS UINT64)"),
+    ("c_r", "REAL", "CAST(1.5 AS REAL)"),
+    ("c_d", "DOUBLE", "CAST(2.5 AS DOUBLE)"),
+    ("c_dec103", "DECIMAL(10,3)", "CAST(1.25 AS DECIMAL(10,3))"),
+    ("c_dec61", "DECIMAL(6,1)", "CAST(2.5 AS DECIMAL(6,1))"),
+    ("c_dec93", "DECIMAL(9,3)", "CAST(7.125 AS DECIMAL(9,3))"),
+    ("c_dec204", "DECIMAL(20,4)", "CAST(7 AS DECIMAL(20,4))"),
+    ("c_dec50", "DECIMAL(5,0)", "CAST(12 AS DECIMAL(5,0))"),
+    ("c_date", "DATE", "CAST('2024-02-29' AS DATE)"),
+    ("c_ts", "TIMESTAMP", "CAST('2024-02-29 10:11:12' AS TIMESTAMP)"),
+    ("c_t", "TEXT", "'abc'"),
+    ("c_b", "BOOLEAN", "true"),
+];
+
+fn wt_setup() -> Vec<String> {
+    let cols: Vec<String> = ATOMS.iter().map(|a| format!("{} {}", a.0, a.1)).collect();
+    let vals: Vec<String> = ATOMS.iter().map(|a| a.2.to_string()).collect();
+    vec![format!("CREATE TEMP TABLE wt ({})", cols.join(", ")), format!("INSERT INTO wt VALUES ({}), ({})", vals.join(", "), vals.join(", "))]
+}
+
+/// A random typed expression over the palette; `cols` = use columns of `wt`.
+fn gen_wide(rng: &mut Rng, cols: bool, depth: u32) -> String {
+    let atom = |rng: &mut Rng| -> String {
+        let a = rng.pick(ATOMS);
+        if cols { a.0.to_string() } else { a.2.to_string() }
+    };
+    if depth == 0 {
+        return atom(rng);
+    }
+    match rng.below(10) {
+        0..=4 => {
+            let op = *rng.pick(&["+", "-", "*", "/", "%"]);
+            format!("({} {op} {})", gen_wide(rng, cols, depth - 1), gen_wide(rng, cols, depth - 1))
+        }
+        5 => format!("{}({})", rng.pick(&["abs", "round", "ceil", "floor", "-"]), gen_wide(rng, cols, depth - 1)),
+        6 => format!("CASE WHEN {} THEN {} ELSE {} END", if cols { "c_b" } else { "true" }, gen_wide(rng, cols, depth - 1), gen_wide(rng, cols, depth - 1)),
+        7 => format!("coalesce({}, {})", gen_wide(rng, cols, depth - 1), gen_wide(rng, cols, depth - 1)),
+        8 => format!("({} {} {})", gen_wide(rng, cols, depth - 1), rng.pick(&["=", "<", ">=", "<>"]), gen_wide(rng, cols, depth - 1)),
+        _ => atom(rng),
+    }
+}
+
 impl Check for SchemaCheck {
     fn run_one(&self, run: u64, rng: Rng, stats: &mut Stats) -> Vec<Violation> {
         let tables = gen_tables(&mut rng.fork("tables"), 20);
@@ -50,6 +101,7 @@ impl Check for SchemaCheck {
         g.max_product = 600;
         let mut stmts = knobs.set_stmts();
         stmts.extend(setup_sql(&tables, 5).into_iter().map(Stmt::new));
+        stmts.extend(wt_setup().into_iter().map(Stmt::new));
         let nsetup = stmts.len();
         let mut sqls: Vec<String> = Vec::new();
         for _ in 0..5 {
@@ -64,6 +116,24 @@ impl Check for SchemaCheck {
             let items: Vec<String> = (0..n).map(|i| format!("{} AS w{i}", pool[wr.usize_below(pool.len())])).collect();
             let from = if tables[0].data.rows.is_empty() || wr.chance(1, 2) { String::new() } else { format!(" FROM {}", tables[0].name) };
             sqls.push(format!("SELECT {}{}", items.join(", "), from));
+        }
+        // combinatorial palette: operators / functions / CASE / coalesce over
+        // every pair of numeric, decimal, temporal, text and boolean types,
+        // as literals (constant folding) and as columns
+        for _ in 0..6 {
+            let cols = wr.chance(1, 2);
+            let n = 1 + wr.usize_below(3);
+            let items: Vec<String> = (0..n).map(|i| { let d = 1 + wr.below(2) as u32; format!("{} AS x{i}", gen_wide(&mut wr, cols, d)) }).collect();
+            sqls.push(format!("SELECT {}{}", items.join(", "), if cols { " FROM wt" } else { "" }));
+        }
+        for _ in 0..2 {
+            let agg = *wr.pick(&["sum", "avg", "min", "max", "count"]);
+            let d = wr.below(2) as u32;
+            sqls.push(format!("SELECT {agg}({}) AS a0 FROM wt", gen_wide(&mut wr, true, d)));
+        }
+        {
+            let (a, b) = (wr.pick(ATOMS).2, wr.pick(ATOMS).2);
+            sqls.push(format!("SELECT {a} AS u UNION ALL SELECT {b}"));
         }
         // UNION branches unify to one type
         sqls.push("SELECT CAST(1 AS INT) AS u UNION ALL SELECT CAST(2 AS BIGINT)".to_string());
